@@ -13,7 +13,10 @@
   on `selectWithMass`, proved to select exactly the cells of the model function tied to the code.
 -/
 import MocVerif.Lemmas.Canon
+import MocVerif.Lemmas.SetOps
+import MocVerif.Lemmas.Builders
 import MocVerif.Lemmas.ValuedMass
+import MocVerif.Lemmas.ValuedOrder
 
 namespace Moc.C20
 open Moc.Mass
@@ -101,6 +104,70 @@ theorem selection_cells (maxDepth : Nat) (cells : List VCell) (from_ to : Nat) (
     (selectWithMass maxDepth cells from_ to asc strict noSplit rev).map (·.1)
       = selectCells maxDepth cells from_ to asc strict noSplit rev :=
   selectWithMass_cells maxDepth cells from_ to asc strict noSplit rev
+
+/-- The MOC returned (`HpxRanges::new_from` of the selected cells) is canonical and covers exactly the selected
+    cells — so its footprint is inside the footprint of the map whenever the selected cells are. -/
+theorem selection_moc (maxDepth : Nat) (cells : List VCell) (from_ to : Nat) (asc strict noSplit rev : Bool)
+    (cs : List Cell) (m : List Rng)
+    (hc : selectCells maxDepth cells from_ to asc strict noSplit rev = some cs)
+    (hm : selectMoc maxDepth cells from_ to asc strict noSplit rev = some m) :
+    Canon m ∧ ∀ x, mem x m ↔ ∃ c ∈ cs, c.2 <<< (2 * (29 - c.1)) ≤ x ∧ x < (c.2 + 1) <<< (2 * (29 - c.1)) := by
+  unfold selectMoc at hm
+  rw [hc] at hm
+  simp only [Option.map_some, Option.some.injEq] at hm
+  subst hm
+  have sp := newFrom_spec (cs.map fun c => (c.2 <<< (2 * (29 - c.1)), (c.2 + 1) <<< (2 * (29 - c.1)))) (by
+    intro r hr
+    obtain ⟨c, _, rfl⟩ := List.mem_map.1 hr
+    exact shl_lt_shl _ _ _ (Nat.lt_succ_self _))
+  refine ⟨sp.1, fun x => ?_⟩
+  rw [sp.2, mem_iff_exists]
+  constructor
+  · rintro ⟨r, hr, h⟩
+    obtain ⟨c, hc', rfl⟩ := List.mem_map.1 hr
+    exact ⟨c, hc', h⟩
+  · rintro ⟨c, hc', h⟩
+    exact ⟨_, List.mem_map.2 ⟨c, hc', rfl⟩, h⟩
+
+/-- **Footprint**: the selection is made only of cells of the map or, when splitting is allowed, of their
+    sub-cells (`SubCell d i c`: `c` is `(d, i)` or one of its descendants) — for every map, thresholds and options. -/
+theorem selection_footprint (maxDepth : Nat) (cells : List VCell) (from_ to : Nat) (asc strict noSplit rev : Bool)
+    (cs : List Cell) (h : selectCells maxDepth cells from_ to asc strict noSplit rev = some cs) :
+    ∀ c ∈ cs, ∃ v ∈ cells, SubCell v.depth v.idx c := by
+  rw [← selection_cells] at h
+  cases hw : selectWithMass maxDepth cells from_ to asc strict noSplit rev with
+  | none => rw [hw] at h; cases h
+  | some r =>
+    obtain ⟨cs', M, uLow, uHigh⟩ := r
+    rw [hw] at h
+    simp only [Option.map_some, Option.some.injEq] at h
+    subst h
+    exact selectWithMass_prov maxDepth cells from_ to asc strict noSplit rev cs' M uLow uHigh hw
+
+/-- **The cells are taken in the requested density order** … -/
+theorem scan_order (asc : Bool) (cells : List VCell) :
+    (asc = true → (sortedOf asc cells).Pairwise (fun a b => a.dens ≤ b.dens)) ∧
+    (asc = false → (sortedOf asc cells).Pairwise (fun a b => b.dens ≤ a.dens)) ∧
+    (∀ y, y ∈ sortedOf asc cells ↔ y ∈ cells) :=
+  ⟨(sortedOf_ordered asc cells).1, (sortedOf_ordered asc cells).2, (sortedOf_spec asc cells).1⟩
+
+/-- … **and every cell lying between the two thresholds in that order is selected**: if the cumulative value
+    before a non-null cell is at least `from` and the cumulative value after it at most `to`, the cell itself
+    is in the selection, whatever the options. -/
+theorem selection_contains_between (maxDepth : Nat) (cells : List VCell) (from_ to : Nat) (asc strict noSplit rev : Bool)
+    (cs : List Cell) (h : selectCells maxDepth cells from_ to asc strict noSplit rev = some cs)
+    (pre post : List VCell) (c : VCell) (hs : sortedOf asc cells = pre ++ c :: post)
+    (h1 : from_ ≤ sumVal pre) (h2 : sumVal pre + c.val ≤ to) (h3 : 0 < c.val) :
+    (c.depth, c.idx) ∈ cs := by
+  rw [← selection_cells] at h
+  cases hw : selectWithMass maxDepth cells from_ to asc strict noSplit rev with
+  | none => rw [hw] at h; cases h
+  | some r =>
+    obtain ⟨cs', M, uLow, uHigh⟩ := r
+    rw [hw] at h
+    simp only [Option.map_some, Option.some.injEq] at h
+    subst h
+    exact selectWithMass_between maxDepth cells from_ to asc strict noSplit rev cs' M uLow uHigh hw pre post c hs h1 h2 h3
 
 /-- **The selection brackets the requested mass**: for every map of dyadic values, every
     `from ≤ to ≤ total`, every order / strictness / splitting / descent option, whenever the two
